@@ -341,6 +341,11 @@ def run(tape, scenario, want_c11=False):
         else:
             await ec.connect()
         for gi, gr in enumerate(groups):
+            if started and not parallel and tape.chance("c18/connected-again", 15):
+                # the master connects once more (the program's connect-and-retry path)
+                # while earlier groups are alive: their windows stay theirs
+                await ec.connect()
+                world.count("c18/master-connected-again-with-live-groups")
             for _ in range(tape.pick("c18/windows-taken-before", AGING)):
                 ec.get_fmmu_addr()
             sg = SyncGroup(ec, make_devices(gr))
@@ -380,17 +385,42 @@ def run(tape, scenario, want_c11=False):
             gi, sg, gr = tape.pick("c18/restarted-group", started)
             own = [k for k in gr["members"] if not specs[k]["aero"]
                    and sum(1 for _, _, g2 in started if k in g2["members"]) == 1]
+            def resize(k, what, new):
+                off = {"in": 24, "out": 16}[what]
+                specs[k][f"{what}_sz"] = new
+                setattr(sims[k], f"{what}_sz", new)
+                setattr(terms[k], f"pdo_{what}_sz", new)
+                struct.pack_into("<H", sims[k].mem, 0x800 + off + 2, new)
+            direct = [k for k in own if not specs[k]["use_fmmu"] and specs[k]["in_sz"]]
+            rejected_first = False
+            if own and direct and tape.chance("c18/rejected-restart-first", 40):
+                # the first attempt to start it again is rejected (a directly addressed
+                # terminal has become too large for a frame); it is then made smaller
+                k = tape.pick("c18/oversized-terminal", direct)
+                sg.task.cancel()
+                await asyncio.wait([sg.task], timeout=1.0)
+                keep = specs[k]["in_sz"]
+                resize(k, "in", 1495)
+                try:
+                    sg.start()
+                except OverflowError:
+                    world.count("c18/restart-rejected-then-repeated")
+                    rejected_first = True
+                except Exception as e:
+                    viol("group-start-raised", f"group {gi}, oversized restart: "
+                         f"{type(e).__name__}: {e}", exception=type(e).__name__)
+                else:
+                    viol("oversized-group-started", f"group {gi} was started again with a "
+                         f"1495-byte directly addressed terminal")
+                    sg.task.cancel()
+                resize(k, "in", keep)
             if own:
                 k = tape.pick("c18/resized-terminal", own)
                 sg.task.cancel()
                 await asyncio.wait([sg.task], timeout=1.0)
-                for what, off in (("in", 24), ("out", 16)):
+                for what in ("in", "out"):
                     if specs[k][f"{what}_sz"]:
-                        new = 1 + tape.draw(f"c18/new-{what}-size", 30)
-                        specs[k][f"{what}_sz"] = new
-                        setattr(sims[k], f"{what}_sz", new)
-                        setattr(terms[k], f"pdo_{what}_sz", new)
-                        struct.pack_into("<H", sims[k].mem, 0x800 + off + 2, new)
+                        resize(k, what, 1 + tape.draw(f"c18/new-{what}-size", 30))
                 sims[k].refresh_inputs()
                 world.count("c18/terminal-resized-between-two-starts")
                 try:
@@ -409,6 +439,28 @@ def run(tape, scenario, want_c11=False):
                 else:
                     cycles_of[gi] = 0
                     await asyncio.sleep(0.05)
+            # one more group is started afterwards (a reader of a terminal that has an
+            # FMMU to spare): its window is nobody else's
+            spare = [k for k in range(nterm) if specs[k]["use_fmmu"] and not specs[k]["aero"]
+                     and specs[k]["in_sz"] and terms[k].fmmu_used.count(None) >= 1]
+            if spare and not violations and (rejected_first
+                                             or tape.chance("c18/one-more-group", 30)):
+                k = tape.pick("c18/one-more-reader", spare)
+                gr2 = dict(members={k: False})
+                sg2 = SyncGroup(ec, make_devices(gr2))
+                try:
+                    sg2.start()
+                except Exception as e:
+                    if not (parallel and ec.fmmu_lock_file.base_addr >= (1 << 31) - 0x2000):
+                        viol("group-start-raised", f"late group: {type(e).__name__}: {e}",
+                             exception=type(e).__name__)
+                else:
+                    gi2 = len(groups)
+                    groups.append(gr2)
+                    hook_group(gi2, sg2, gr2)
+                    started.append((gi2, sg2, gr2))
+                    world.count("c18/group-started-after-a-restart")
+                    await asyncio.sleep(0.04)
         # logical windows of different groups never overlap
         windows = []
         for gi, sg, gr in started:
@@ -438,6 +490,10 @@ def run(tape, scenario, want_c11=False):
         except SimStall as e:
             viol("did-not-finish", str(e))
         for m, tn, txt in env.loop_exceptions():
+            if "Task was destroyed but it is pending" in m:
+                # (the send loop of the first connection, left behind by connecting again)
+                world.count("c18/send-loop-of-an-earlier-connection-left-pending")
+                continue
             if tn != "CancelledError":
                 viol("library-task-died", f"{m}: {tn}: {txt}", exception=tn)
     mine = [v for v in violations if v["rule"] not in ("frame-malformed", "sterile-differs")]
